@@ -4,13 +4,21 @@ pub mod c03;
 pub mod c04;
 pub mod c05;
 pub mod c06;
+pub mod c10;
 pub mod c11;
 pub mod c12;
+pub mod c13;
+pub mod c14;
+pub mod c15;
+pub mod c16;
+pub mod c17;
+pub mod c18;
 pub mod c19;
+pub mod c20;
 pub mod prog;
 
 pub fn registry() -> Vec<&'static dyn Check> {
-    vec![&prog::C01, &prog::C02, &c03::C03, &c04::C04, &c05::C05, &c06::C06, &prog::C07, &prog::C08, &prog::C09, &c11::C11, &c12::C12, &c19::C19]
+    vec![&prog::C01, &prog::C02, &c03::C03, &c04::C04, &c05::C05, &c06::C06, &prog::C07, &prog::C08, &prog::C09, &c10::C10, &c11::C11, &c12::C12, &c13::C13, &c14::C14, &c15::C15, &c16::C16, &c17::C17, &c18::C18, &c19::C19, &c20::C20]
 }
 
 pub fn find(id: &str) -> Option<&'static dyn Check> {
